@@ -1,9 +1,11 @@
 package main
 
 import (
+	"encoding/json"
 	"fmt"
 	"gopkg.in/src-d/hercules.v10/verifharness/hv"
 	"math/rand"
+	"sort"
 	"strings"
 
 	"gopkg.in/src-d/hercules.v10/internal/toposort"
@@ -48,25 +50,71 @@ func main() {
 		}
 		// some removals + reindex
 		touched := map[int]bool{}
+		removedEdges := map[[2]int]bool{}
+		mustReindex := map[int]bool{}
 		for e := range edges {
 			if rng.Intn(5) == 0 {
 				fmt.Fprintf(wo, "rm %d %d\n", e[0], e[1])
 				fmt.Fprintf(wi, "%v\n", g.RemoveEdge(name(e[0]), name(e[1])))
 				touched[e[0]] = true
+				removedEdges[e] = true
 			}
 		}
+		malformedOp := false
 		if !wellFormed && rng.Intn(2) == 0 {
+			malformedOp = true
 			a, b := rng.Intn(n), rng.Intn(n)
+			if edges[[2]int{a, b}] {
+				removedEdges[[2]int{a, b}] = true
+			}
 			fmt.Fprintf(wo, "rm %d %d\n", a, b)
 			fmt.Fprintf(wi, "%v\n", g.RemoveEdge(name(a), name(b)))
 			touched[a] = true
 		}
+		// new edges from nodes that lost an edge, BEFORE they are re-indexed (what Pipeline.resolve does)
 		for a := 0; a < n; a++ {
-			if touched[a] && (wellFormed || rng.Intn(2) == 0) {
+			if touched[a] && rng.Intn(2) == 0 {
+				b := rng.Intn(n)
+				if !edges[[2]int{a, b}] && (a != b || !wellFormed) {
+					edges[[2]int{a, b}] = true
+					removedEdges[[2]int{a, b}] = false
+					fmt.Fprintf(wo, "edge %d %d\n", a, b)
+					fmt.Fprintf(wi, "%d\n", g.AddEdge(name(a), name(b)))
+					// the new edge has the rank of a surviving one until the node is re-indexed; which of the two
+					// Toposort then sees depends on map order, so the node is always re-indexed before sorting
+					mustReindex[a] = true
+				}
+			}
+		}
+		dirty := false
+		for a := 0; a < n; a++ {
+			if touched[a] && (wellFormed || mustReindex[a] || rng.Intn(2) == 0) {
+				touched[a] = false
 				fmt.Fprintf(wo, "reindex %d\n", a)
 				fmt.Fprintln(wi, "ok")
 				g.ReindexNode(name(a))
 			}
+		}
+		for a := 0; a < n; a++ {
+			if touched[a] {
+				dirty = true
+			}
+		}
+		// live edge set
+		live := map[[2]int]bool{}
+		for e := range edges {
+			if !removedEdges[e] {
+				live[e] = true
+			}
+		}
+		caseJSON := func() string {
+			var es [][2]int
+			for e := range live {
+				es = append(es, e)
+			}
+			sort.Slice(es, func(i, j int) bool { return es[i][0] < es[j][0] || es[i][0] == es[j][0] && es[i][1] < es[j][1] })
+			c, _ := json.Marshal(map[string]interface{}{"nodes": n, "edges": es, "well_formed_build": wellFormed && !dirty})
+			return string(c)
 		}
 		fmt.Fprintln(wo, "sort")
 		func() {
@@ -92,6 +140,97 @@ func main() {
 				return
 			}
 			fmt.Fprintf(wi, "%v [%s]\n", ok, strings.Join(ids, ", "))
+			// Go-side statement of C15 for well-formed builds (oracle)
+			if wellFormed && !dirty && !malformedOp {
+				acyclic := isAcyclic(n, live)
+				if ok != acyclic {
+					hv.Fail("toposort", caseJSON(), fmt.Sprintf("sorting reports success=%v, the graph is acyclic=%v", ok, acyclic))
+				} else if ok {
+					pos := map[string]int{}
+					for i, s := range ids {
+						if _, dup := pos[s]; dup {
+							hv.Fail("toposort", caseJSON(), "node "+s+" appears twice in the order")
+						}
+						pos[s] = i
+					}
+					if len(pos) != n {
+						hv.Fail("toposort", caseJSON(), fmt.Sprintf("%d of %d nodes in the order", len(pos), n))
+					}
+					for e := range live {
+						if pos[fmt.Sprint(e[0])] > pos[fmt.Sprint(e[1])] {
+							hv.Fail("toposort", caseJSON(), fmt.Sprintf("edge %d->%d points backward in %v", e[0], e[1], ids))
+						}
+					}
+				}
+			}
 		}()
+		// FindCycle for two seeds: [] or a real cycle through the seed, non-empty whenever one exists
+		for k := 0; k < 2; k++ {
+			seed := rng.Intn(n)
+			cyc := g.FindCycle(name(seed))
+			var ids []string
+			var nodes []int
+			for _, s := range cyc {
+				var i int
+				fmt.Sscanf(s, "n%d", &i)
+				ids = append(ids, fmt.Sprint(i))
+				nodes = append(nodes, i)
+			}
+			ans := strings.Join(ids, ",")
+			if ans == "" {
+				ans = "-"
+			}
+			fmt.Fprintf(wo, "cycle %d %s\n", seed, ans)
+			fmt.Fprintln(wi, "ok")
+			if len(nodes) == 0 {
+				if reachesItself(n, live, seed) {
+					hv.Fail("find-cycle", caseJSON(), fmt.Sprintf("no cycle reported for seed %d although one exists", seed))
+				}
+			} else {
+				good := nodes[0] == seed
+				for i := range nodes {
+					nx := seed
+					if i+1 < len(nodes) {
+						nx = nodes[i+1]
+					}
+					if !live[[2]int{nodes[i], nx}] {
+						good = false
+					}
+				}
+				if !good {
+					hv.Fail("find-cycle", caseJSON(), fmt.Sprintf("seed %d: %v is not a cycle through the seed", seed, nodes))
+				}
+			}
+		}
 	}
+}
+
+func isAcyclic(n int, live map[[2]int]bool) bool {
+	for s := 0; s < n; s++ {
+		if reachesItself(n, live, s) {
+			return false
+		}
+	}
+	return true
+}
+
+func reachesItself(n int, live map[[2]int]bool, seed int) bool {
+	seen := map[int]bool{}
+	st := []int{seed}
+	for len(st) > 0 {
+		h := st[len(st)-1]
+		st = st[:len(st)-1]
+		for e := range live {
+			if e[0] == h {
+				if e[1] == seed {
+					return true
+				}
+				if !seen[e[1]] {
+					seen[e[1]] = true
+					st = append(st, e[1])
+				}
+			}
+		}
+	}
+	return false
 }
